@@ -59,7 +59,7 @@ class C05(core.Check):
     required_buckets = {b: 3 for b in [
         'boundary:ends-at-zone-end', 'boundary:one-past-zone-end', 'boundary:ends-at-global-end', 'boundary:one-past-global-end',
         'org:zone-offset-0', 'org:zone-offset-last', 'org:zone-offset-past', 'org:bare-after-zone', 'org:GLOBAL-relative',
-        'same-zone>=3-stretches', 'create:valid', 'create:outside-global', 'create:duplicate', 'create:duplicate/same-range', 'create:inverted',
+        'same-zone>=3-stretches', 'create:valid', 'create:outside-global', 'create:duplicate', 'create:duplicate/same-range', 'macro-of-part-byte-steps-at-a-zone-edge', 'zone-names-differing-in-letter-case-only', 'create:inverted',
         'create:beyond-width', 'layout:global-redefined', 'layout:overlapping', 'layout:adjacent', 'layout:nested',
         'include-from-zone', 'include-from-zone-then-continue', 'org:zone-offset-negative', 'org:bare-literal-inside-selected-zone', 'zerountil-in-zone', 'zone-switch-in-unselected-branch', 'isa-zone:inverted', 'isa-zone:beyond-width', 'inverted-by-1', 'expect:ACCEPT', 'expect:REJECT', 'isa-zone:reaches-beyond-redefined-GLOBAL', 'isa-zone:reaches-above', 'isa-zone:reaches-below']}
 
@@ -338,9 +338,51 @@ class C05(core.Check):
             d = ['at-end', 'past-end', None, 'org-past', 'org-below', 'bare-org-into-zone'][i % 6] if i < n_pre else rng.choice(['at-end', 'past-end', 'org-past', 'org-below', 'bare-org-into-zone', None, None, None])
             yield self.build(rng, d)
         yield from self.sticking_out_cases()
+        yield from self.macro_at_zone_end_cases()
+        yield from self.case_twin_zone_cases()
         for i in range(140 if tier == 'quick' else 1400):
             rng = core.rng_for(0 if i < 140 else seed, self.pid, 'inv', i)
             yield self.invalid_zone_cases(rng, i)
+
+    def case_twin_zone_cases(self):
+        """zone names are names like labels: 'buf' and 'BUF' (configured, or declared in source) are two zones"""
+        D = lambda *v: {'k': 'data', 'width': 1, 'vals': list(v)}     # noqa: E731
+        Z = lambda n: {'k': 'memzone', 'name': n}                     # noqa: E731
+        for k, (lo, hi) in enumerate((('buf', 'BUF'), ('Ram', 'ram'), ('io_x', 'IO_x'), ('zq', 'zQ'))):
+            for where in ('configured', 'declared', 'one-each'):
+                rng = core.rng_for(0, self.pid, 'twin', k, where)
+                conf = [{'name': lo, 'start': 0x10, 'end': 0x1F}, {'name': hi, 'start': 0x40, 'end': 0x4F}]
+                pre = conf if where == 'configured' else (conf[:1] if where == 'one-each' else [])
+                main = [{'k': 'create_memzone', 'name': z['name'], 'start': z['start'], 'end': z['end']} for z in conf if z not in pre]
+                main += [Z(lo), D(1, 2), Z(hi), D(3), Z(lo), D(4), {'k': 'org', 'addr': 2, 'zone_name': hi}, D(5), Z(lo), D(6)]
+                isa = gen_prog.layout_isa(16, zones=pre)
+                yield self.finish(rng, isa, main, {}, 16, pre, None, None, {'zone-names-differing-in-letter-case-only', 'twin:' + where})
+
+    def macro_at_zone_end_cases(self):
+        """a macro occupies the bytes of its steps, each padded to whole bytes: the last of them has to lie inside the zone, and
+        the next line follows the last of them"""
+        for k, (mname, mhex) in enumerate(gen_prog.MACRO_LINES):
+            msz = len(mhex) // 2
+            for where in ('ends-at-zone-end', 'one-past-zone-end', 'inside-then-byte', 'ends-at-global-end', 'one-past-global-end'):
+                for ab in (12, 16):
+                    rng = core.rng_for(0, self.pid, 'macro-end', k, where, ab)
+                    top = (1 << ab) - 1
+                    zones = [{'name': 'ZM', 'start': 0x40, 'end': 0x4F}]
+                    M = {'k': 'bytes', 'bytes': mhex, 'text': mname}
+                    if where.endswith('global-end'):
+                        room = 6
+                        main = [{'k': 'org', 'addr': top - room + 1, 'zone_name': None}]
+                    else:
+                        room = 16
+                        main = [{'k': 'memzone', 'name': 'ZM'}]
+                    lead = room - msz - {'ends-at-zone-end': 0, 'ends-at-global-end': 0, 'one-past-zone-end': -1, 'one-past-global-end': -1, 'inside-then-byte': 3}[where]
+                    main.append({'k': 'fill', 'n': lead, 'v': 0x77})
+                    main.append(M)
+                    if where == 'inside-then-byte':
+                        main.append({'k': 'data', 'width': 1, 'vals': [0xE1, 0xE2]})
+                    isa = gen_prog.layout_isa(ab, zones=zones)
+                    yield self.finish(rng, isa, main, {}, ab, zones, None, None,
+                                      {'macro-of-part-byte-steps-at-a-zone-edge' if mname != 'duo' else 'macro-at-a-zone-edge', 'boundary:' + where})
 
     def sticking_out_cases(self):
         """a zone predefined by the configuration may reach beyond a redefined GLOBAL zone; bytes may not"""
